@@ -281,7 +281,7 @@ theorem kwRest_is (n0 : Bool) (l r : Expr) (rest : List Tok) (h8 : stopLE2 d 8 r
   unfold pKwRest
   simp only []
   unfold pKwBody
-  simp only [hu, hm, h1]
+  simp only [hu, Bool.false_eq_true, ↓reduceIte, hm, h1]
   simpa using ht
 
 theorem cont9_kw (k : KwKind) (n0 : Bool) (l r : Expr) (hk : k ≠ .in_)
